@@ -29,6 +29,13 @@ func attributeSequencesFresh(c *core.Ctx) {
 			attr[fv] = true
 		}
 	}
+	shallow := map[*types.Var]bool{}
+	for _, fv := range []*types.Var{p.Field("protocols/bgp/types", "ASPathSegment", "ASNs"), p.Field("route", "BGPPath", "UnknownAttributes")} {
+		if fv != nil {
+			shallow[fv] = true
+		}
+	}
+	copyGivesOwnHeaders(c)
 	if len(attr) < 6 {
 		c.Undecided(rule, "attribute fields", token.NoPos, "anchors not found")
 		return
@@ -146,6 +153,27 @@ func attributeSequencesFresh(c *core.Ctx) {
 				for _, l := range x.Lhs {
 					if ie, ok := core.Unparen(l).(*ast.IndexExpr); ok {
 						check(ie.X, x, "stores into an element of")
+						continue
+					}
+					// seq[i].F = v  — a field of an element
+					// (only for the sequences Copy() does not duplicate: segment ASNs, unknown attributes)
+					if inner := innermostIndex(l); inner != nil && shallow[core.FieldOf(f.Pkg, core.Unparen(inner.X))] {
+						check(inner.X, x, "stores into a field of an element of")
+						continue
+					}
+					// ptr := &seq[i]; ptr.F = v / *ptr = v
+					if b := core.BaseIdent(l); b != nil {
+						if _, plain := core.Unparen(l).(*ast.Ident); !plain {
+							if o := core.ObjOf(f.Pkg, b); o != nil {
+								for _, d := range core.DefsOf(f, o) {
+									if u, ok := core.Unparen(d).(*ast.UnaryExpr); ok && u.Op == token.AND {
+										if ie, ok := core.Unparen(u.X).(*ast.IndexExpr); ok && shallow[core.FieldOf(f.Pkg, core.Unparen(ie.X))] {
+											check(ie.X, x, "stores through a pointer to an element of")
+										}
+									}
+								}
+							}
+						}
 					}
 				}
 				// attribute storage = append(base, …): the result lives in base's backing array whenever base has spare
@@ -188,5 +216,79 @@ func attributeSequencesFresh(c *core.Ctx) {
 			}
 			return true
 		})
+	}
+}
+
+// innermostIndex: for a.b[i].c.d returns the index expression a.b[i]; nil when the chain has no element access or is a
+// plain element store (handled separately).
+func innermostIndex(e ast.Expr) *ast.IndexExpr {
+	e = core.Unparen(e)
+	seenSel := false
+	for {
+		switch x := e.(type) {
+		case *ast.SelectorExpr:
+			seenSel = true
+			e = core.Unparen(x.X)
+		case *ast.IndexExpr:
+			if seenSel {
+				return x
+			}
+			return nil
+		case *ast.StarExpr:
+			e = core.Unparen(x.X)
+		default:
+			return nil
+		}
+	}
+}
+
+// copyGivesOwnHeaders: BGPPath.Copy gives the copy its own header (pointer target) for every list attribute held by
+// pointer — AS_PATH, COMMUNITIES, LARGE_COMMUNITIES, CLUSTER_LIST — whenever the original has one.  Code that extends
+// such a list on a copy (`*cp.X = append(*cp.X, …)`, a new first AS_PATH segment) writes through that pointer; a copy
+// that shares the header with the original ("nothing to copy for an empty list") makes those writes appear in the
+// Loc-RIB and in every other table.  Rule: in Copy the assignment of a fresh header to cp.F is controlled by nothing
+// but the nil test of F.
+func copyGivesOwnHeaders(c *core.Ctx) {
+	const rule = "copy-gives-own-list-headers"
+	p := c.P
+	f := c.MustFunc("route.(*BGPPath).Copy")
+	if f == nil {
+		return
+	}
+	c.Analysed(f)
+	for _, name := range []string{"ASPath", "Communities", "LargeCommunities", "ClusterList"} {
+		fv := p.Field("route", "BGPPath", name)
+		if fv == nil {
+			c.Check(false, rule, "BGPPath."+name, f.Decl.Pos(), "field not found")
+			continue
+		}
+		ok, cond := false, ""
+		var at ast.Node = f.Decl
+		ast.Inspect(f.Decl.Body, func(n ast.Node) bool {
+			as, isAs := n.(*ast.AssignStmt)
+			if !isAs || len(as.Lhs) != 1 || core.FieldOf(f.Pkg, as.Lhs[0]) != fv {
+				return true
+			}
+			if u, isU := core.Unparen(as.Rhs[0]).(*ast.UnaryExpr); !isU || u.Op != token.AND {
+				return true
+			}
+			at = as
+			ok = true
+			for _, ft := range core.CtlFactsAt(f, as) {
+				x, isNil := core.IsNilCheck(f.Pkg, ft.Expr)
+				if isNil && core.FieldOf(f.Pkg, x) == nil {
+					continue // the receiver's own nil guard
+				}
+				if !isNil || core.FieldOf(f.Pkg, x) != fv {
+					ok = false
+					if ft.Expr != nil {
+						cond = core.ExprString(ft.Expr)
+					}
+				}
+			}
+			return true
+		})
+		c.Check(ok, rule, "BGPPath.Copy gives the copy its own "+name+" header whenever there is one", at.Pos(),
+			"the copy gets its own "+name+" header only under `"+cond+"` (or not at all): otherwise copy and original share the header, and a list extended on the copy (policy actions, AS path prepend on export) changes the route stored in the Loc-RIB and every other table")
 	}
 }
